@@ -530,4 +530,7 @@ def correspond(ctx):
     out = {'n': res['n'], 'agree': res['agree'], 'failing': res['failing'], 'errors': res['errors'], 'distribution': dist,
            'samples': meta[:2], 'kinds': {'hand_models': 1, 'with_hits': sum(1 for m in meta if m['left_hits'] + m['right_hits'])}}
     if res['failing']: out['first_disagreement'] = [meta[i] for i in res['failing'][:3]]
+    # bounds / windingNumberOfPoint / pointIsInside as REGENERATED from path/__init__.py (Gen/Winding.v: the two dicts keyed by Point value, the
+    # winding counts in Z, None boxes as exceptions), equal to the hand model by Proofs/Bridge4.v
+    kernels.merge_cross_check(out, 'C11', ['Path_bounds', 'Path_windingNumberOfPoint', 'Path_pointIsInside'], ctx.n(30, 400), rng)
     return out
